@@ -116,13 +116,15 @@ def ref_apply(L, rec, mod, grad_mode=None, contiguous=False, flip_rg=False):
     return _ref_apply(L, rec, mod, grad_mode, contiguous, flip_rg)
 
 
-def _ref_apply(L, rec, mod, grad_mode=None, contiguous=False, flip_rg=False):
+def _ref_apply(L, rec, mod, grad_mode=None, contiguous=False, flip_rg=False, layout=None):
     torch = L.torch
     gm = grad_mode or rec["op"].get("grad_mode", "ambient")
     if rec["kind"] == "call":
         base, x = make_tensor(rec["op"]["arg"])
-        if contiguous:
+        if contiguous or layout:
             x = x.contiguous().clone()
+        if layout:
+            x = relayout(torch, x, layout)
         leaf = x
         if bool(rec["op"].get("requires_grad")) != bool(flip_rg) and (
                 x.is_floating_point() or x.is_complex()):
@@ -377,33 +379,75 @@ def check_backward(w, rec, st, how):
                 "gradient through a module constructed in that precision", m))
             return
     # C16 (iv) in the backward direction: a non-contiguous gradient handed to
-    # backward (`y.sum().backward()` passes a stride-0 broadcast) behaves like
-    # its contiguous copy
-    if how == "direct" and rec["op"].get("cot_layout", "contig") != "contig":
+    # backward (`y.sum().backward()` passes a stride-0 broadcast; a channels_last
+    # network hands back channels_last gradients) behaves like its contiguous
+    # copy.  Same values in every memory layout, one forward graph.
+    if how == "direct":
         ocf, valf, leavesf = ref_record(None, fwd, "recipe")
         if ocf != "ok":
             return
-        self_sel = select_backward(torch, valf, leavesf, rec["op"])
-        ocs, gs = _run(lambda: torch.autograd.grad(self_sel[0], self_sel[2], self_sel[1],
-                                                   allow_unused=True)) if self_sel else ("none", None)
-        ocf, valf, leavesf = ref_record(None, fwd, "recipe")
         selc = select_backward(torch, valf, leavesf, rec["op"], contiguous=True)
-        if self_sel is None or selc is None:
+        if selc is None:
             return
-        occ, gc_ = _run(lambda: torch.autograd.grad(selc[0], selc[2], selc[1], allow_unused=True))
-        st["strided"] += 1
-        if ocs != occ:
-            w.violation("D4-strided", rec, "backward with a %s gradient: %s, with its contiguous copy: %s"
-                        % (rec["op"]["cot_layout"], ocs, occ))
-        elif occ == "ok":
-            sc = snap(list(gc_))
-            in_dt = DTNAME.get(selc[1][0].dtype, "float32")
-            cs = max([float(c.detach().abs().max()) for c in selc[1] if c.numel()] + [0.0])
-            m = compare(snap(list(gs)), sc, "tol", 16 * EPS.get(in_dt, EPS["float32"]),
-                        scale=max(1e-30, max_abs(sc), cs))
-            if m:
-                w.violation("D4-strided", rec, "backward with a %s gradient vs its contiguous copy: %s"
-                            % (rec["op"]["cot_layout"], m))
+        outs_c, cots_c, inputs_c = selc
+        occ, gc_ = _run(lambda: torch.autograd.grad(outs_c, inputs_c, cots_c, retain_graph=True,
+                                                    allow_unused=True))
+        sc = snap(list(gc_)) if occ == "ok" else None
+        in_dt = DTNAME.get(cots_c[0].dtype, "float32")
+        cs = max([float(c.detach().abs().max()) for c in cots_c if c.numel()] + [0.0])
+        drawn = select_backward(torch, valf, leavesf, rec["op"])[1]
+        for lay in ["drawn"] + COT_LAYOUTS:
+            cl = drawn if lay == "drawn" else [relayout(torch, c, lay) for c in cots_c]
+            if all(c.is_contiguous() for c in cl):
+                continue
+            name = rec["op"].get("cot_layout", "contig") if lay == "drawn" else lay
+            ocs, gs = _run(lambda: torch.autograd.grad(outs_c, inputs_c, cl, retain_graph=True,
+                                                       allow_unused=True))
+            st["strided"] += 1
+            if ocs != occ:
+                w.violation("D4-strided", rec, "backward with a %s gradient: %s, with its contiguous "
+                            "copy: %s" % (name, ocs, occ))
+                return
+            if occ == "ok":
+                m = compare(snap(list(gs)), sc, "tol", 16 * EPS.get(in_dt, EPS["float32"]),
+                            scale=max(1e-30, max_abs(sc), cs))
+                if m:
+                    w.violation("D4-strided", rec, "backward with a %s gradient vs its contiguous "
+                                "copy: %s" % (name, m))
+                    return
+
+
+COT_LAYOUTS = ["chlast", "transposed", "step", "rowstep", "chanslice", "perm01", "perm12"]
+
+
+def relayout(torch, t, layout):
+    """The same values as t in another memory layout (t itself if the layout
+    does not exist for its rank)."""
+    d = t.dim()
+    if layout == "chlast":
+        if d == 4:
+            return t.contiguous(memory_format=torch.channels_last)
+        if d == 5:
+            return t.contiguous(memory_format=torch.channels_last_3d)
+        return t
+    if layout == "transposed" and d >= 2:
+        return t.transpose(-1, -2).contiguous().transpose(-1, -2)
+    if layout in ("perm01", "perm12") and d >= 3:
+        i, j = (0, 1) if layout == "perm01" else (1, 2)
+        return t.transpose(i, j).contiguous().transpose(i, j)
+    if layout == "step" and d >= 1:
+        buf = torch.zeros(tuple(t.shape[:-1]) + (2 * t.shape[-1],), dtype=t.dtype)
+        buf[..., ::2] = t
+        return buf[..., ::2]
+    if layout == "rowstep" and d >= 2:
+        buf = torch.zeros(tuple(t.shape[:-2]) + (2 * t.shape[-2], t.shape[-1]), dtype=t.dtype)
+        buf[..., ::2, :] = t
+        return buf[..., ::2, :]
+    if layout == "chanslice" and d >= 3:
+        buf = torch.zeros((t.shape[0], t.shape[1] + 2) + tuple(t.shape[2:]), dtype=t.dtype)
+        buf[:, 1:1 + t.shape[1]] = t
+        return buf[:, 1:1 + t.shape[1]]
+    return t
 
 
 def run_canaries(w, st):
@@ -540,6 +584,44 @@ def check_c16(w, rec, st):
     if bad:
         w.violation("D1-output-dtype", rec, "input dtype %s but %s" % (in_dt, bad))
     check_d4(w, rec, st, kind, in_dt)
+    check_d4_all(w, rec, st, in_dt)
+def check_d4_all(w, rec, st, in_dt):
+    """(iv) for every memory layout the harness knows, not only the one the plan
+    drew: the same input values as channels_last / transposed / strided /
+    sliced / permuted views against the contiguous copy (every third call of
+    the C16 profile; one history-free module serves all of them)."""
+    if rec["kind"] != "call" or in_dt not in ("float32", "float64"):
+        return
+    st["d4_all_seen"] = st.get("d4_all_seen", 0) + 1
+    if st["d4_all_seen"] % 3 != 1:
+        return
+    if rec["op"]["arg"].get("layout") == "unbatched":
+        return
+    L = fresh(rec["recipe"][0][3])
+    oc, mod = _run(lambda: build_from_recipe(L, rec["recipe"]))
+    if oc != "ok":
+        return
+    oc2, v2, _ = _ref_apply(L, rec, mod, contiguous=True)
+    if oc2 != "ok":
+        return
+    s2 = snap(v2)
+    try:
+        xin = max_abs(snap(make_tensor(rec["op"]["arg"])[1]))
+    except Exception:  # noqa
+        xin = 0.0
+    for lay in COT_LAYOUTS:
+        oc1, v1, _ = _ref_apply(L, rec, mod, layout=lay)
+        st["strided"] += 1
+        if oc1 != oc2:
+            w.violation("D4-strided", rec, "%s input: %s, contiguous copy: %s" % (lay, oc1, oc2))
+            return
+        m = compare(snap(v1), s2, "tol", 16 * EPS.get(in_dt, EPS["float32"]),
+                    scale=max(1e-30, max_abs(s2), xin))
+        if m:
+            w.violation("D4-strided", rec, "%s input vs contiguous copy: %s" % (lay, m))
+            return
+
+
 def check_d4(w, rec, st, kind, in_dt):
     # (iv) strided input == contiguous copy
     strided_pyr = kind == "inverse" and (rec["pyr"][3] or any(rec["pyr"][4]))
